@@ -133,8 +133,8 @@ class Tr:
             return "(match %s with | some v_ => decide (v_ ≠ 0) | none => false)" % t
         if ty == "nat":
             return "decide (%s ≠ 0)" % t
-        if ty == "ostr":            # truthiness of an optional string is not used at the curated sites
-            raise Untranslatable("truthiness of " + ast.unparse(node))
+        if ty == "ostr":            # truthiness of an optional string: present and not empty
+            return "(match %s with | some v_ => !v_.isEmpty | none => false)" % t
         raise Untranslatable("not boolean: " + ast.unparse(node))
 
     def cmp(self, a, op, b):
@@ -298,6 +298,15 @@ SITES = [
      "fun (lockSet : Bool) =>", "Bool → Bool", {"lock.is_set()": ("lockSet", "bool")}),
     ("waitTimeoutArmed", "indi/client/client.py", "indi.client.client", "BaseClient.waitforevent", "if", ["timeout", "!lock", "!result"],
      "fun (timeout : Option Nat) =>", "Option Nat → Bool", {"timeout": ("timeout", "onat")}),
+    # --- the driver's event contract and publication guards (C14, C07)
+    ("setValueDefault", "indi/device/properties/instance/elements.py", "indi.device.properties.instance.elements", "Element.set_value", "if", ["prevent_default"],
+     "fun (vetoed : Bool) =>", "Bool → Bool", {"e.prevent_default": ("vetoed", "bool"), "*.prevent_default": ("vetoed", "bool")}),
+    ("toSetSilent", "indi/device/properties/instance/vectors.py", "indi.device.properties.instance.vectors", "Vector.to_set_message", "if", ["enabled", "!e.enabled"],
+     "fun (enabled : Bool) =>", "Bool → Bool", {"self.enabled": ("enabled", "bool")}),
+    ("toDefDeletes", "indi/device/properties/instance/vectors.py", "indi.device.properties.instance.vectors", "Vector.to_def_message", "if", ["enabled", "!e.enabled"],
+     "fun (enabled : Bool) =>", "Bool → Bool", {"self.enabled": ("enabled", "bool")}),
+    ("driverGetAll", "indi/device/driver.py", "indi.device.driver", "Driver.message_from_client", "if", ["msg.name", "!in "],
+     "fun (name : Option Str) =>", "Option Str → Bool", {"msg.name": ("name", "ostr")}),
 ]
 
 
